@@ -32,5 +32,6 @@ func init() {
 			Rule: "same generator as leg S; the pattern is parsed by syntax.Parse (reductions and rewrites applied), the resulting RegexNode tree is converted structurally to the specification's AST (right-to-left concatenations reversed back, char loops as quantifiers, atomic variants as atomic(...), sets via their structural dump with category predicates from Go's unicode tables) and Spec.find on that tree must equal the engine's find: ties the writer and interpreter to the tree semantics and isolates the parser/reducer",
 			N: c.N(4000, 300000), Gen: st2.next, Check: specTreeCheck("C01"), Batch: 4000,
 		})
+		vmLeg(c, c.N(500, 8000), vmSizes{k: 24, maxSteps: 4000, maxText: 12, extra: 2}) // leg W: interpreter model vs executeDefault (vm.go)
 	})
 }
